@@ -1,11 +1,14 @@
 //@@ unit props=C19,C01,C10,C16,C17,C06
-// probe
+// Unit xlsxxml: the XML-event-consuming functions of the xlsx reader (src/xlsx/mod.rs, src/xlsx/cells_reader.rs), verbatim text,
+// under contract against a GHOST MODEL of quick-xml (assumption A-xml of DESIGN.md section 5).
 #![allow(unused_imports, dead_code, unused_variables, unused_mut, unused_assignments)]
 use vstd::prelude::*;
 use std::borrow::Cow;
+use std::ops::Deref;
 
 verus! {
 
+// ---- stand-ins for foreign error payload types (opaque; never inspected by the verified code)
 pub mod quick_xml {
     pub struct Error;
     pub mod events { pub mod attributes { pub struct AttrError; } }
@@ -18,85 +21,453 @@ pub mod vba { pub struct VbaError; }
 #[verifier::external_type_specification] #[verifier::external_body] pub struct ExParseIntError(std::num::ParseIntError);
 
 //@@ item src/xlsx/mod.rs enum XlsxError
-
-pub enum EvKind { Start, End, Text, CData, Other, Error }
-pub ghost struct Attr { pub key: Seq<u8>, pub raw: Seq<u8>, pub val: Seq<char>, pub val_ok: bool }
-pub ghost struct Ev { pub kind: EvKind, pub name: Seq<u8>, pub attrs: Seq<Attr>, pub raw: Seq<u8>, pub text: Seq<char>, pub text_ok: bool }
-
+// what `from_err!(quick_xml::Error, XlsxError, Xml)` (macro of src/utils.rs) expands to
 impl From<quick_xml::Error> for XlsxError { fn from(e: quick_xml::Error) -> (r: XlsxError) { XlsxError::Xml(e) } }
 impl vstd::std_specs::convert::FromSpecImpl<quick_xml::Error> for XlsxError {
     open spec fn obeys_from_spec() -> bool { true }
     open spec fn from_spec(e: quick_xml::Error) -> Self { XlsxError::Xml(e) }
 }
 
-#[derive(PartialEq)]
-pub struct QName<'a>(pub &'a [u8]);
+// =====================================================================================================================
+// A-xml: GHOST MODEL OF quick-xml 0.37 (configuration set by xlsx::xml_reader: trim_text(false), expand_empty_elements = true,
+// check_end_names = false).  Everything in this section is TRUSTED.  A reader owns the ghost sequence `events()` of the results
+// its successive `read_event_into` calls deliver, and a position `pos()`.  What is ASSUMED AND NOT VERIFIED: that quick-xml turns
+// the bytes of the zip part into this sequence (tokenisation, `<a/>` delivered as Start+End, entity / character-reference
+// resolution in `unescape`, white space preserved, CDATA sections delivered as separate CData events with their literal content).
+// Qualified name and local name, raw bytes and unescaped text are DIFFERENT ghost values: contracts speak of local names and of
+// unescaped text only.
+// =====================================================================================================================
+pub enum EvKind {
+    Start,   // start tag (or the first half of an empty-element tag)
+    End,     // end tag (or the second half of an empty-element tag)
+    Text,    // character data between tags (escaped form in `raw`, resolved form in `text`)
+    CData,   // <![CDATA[ ... ]]>, literal content in `text`
+    Other,   // comment, processing instruction, XML declaration, DOCTYPE
+    Error,   // the reader returns Err at this point
+}
+pub ghost struct Attr {
+    pub key: Seq<u8>,     // qualified attribute name
+    pub raw: Seq<u8>,     // value bytes as written between the quotes (what `Attribute::value` holds)
+    pub val: Seq<char>,   // value with entity / character references resolved (what `decode_and_unescape_value` returns)
+    pub val_ok: bool,     // `decode_and_unescape_value` succeeds
+}
+pub ghost struct Ev {
+    pub kind: EvKind,
+    pub name: Seq<u8>,     // qualified tag name, e.g. `x:row` (Start / End)
+    pub attrs: Seq<Attr>,  // attributes in document order (Start)
+    pub raw: Seq<u8>,      // bytes of a Text event as written (still escaped)
+    pub text: Seq<char>,   // content of a Text event after unescaping, literal content of a CData event
+    pub text_ok: bool,     // `unescape()` succeeds on this Text event
+}
+/// index of the first ':' of s at or after i, s.len() if none
+pub open spec fn colon_at(s: Seq<u8>, i: int) -> int
+    decreases s.len() - i
+{
+    if i < 0 || i >= s.len() { s.len() as int } else if s[i] == 0x3au8 { i } else { colon_at(s, i + 1) }
+}
+/// XML Namespaces: QName = (Prefix ':')? LocalPart -- the local part of a qualified name (quick-xml `QName::local_name`)
+pub open spec fn local_of(name: Seq<u8>) -> Seq<u8> {
+    let c = colon_at(name, 0);
+    if c >= name.len() { name } else { name.subrange(c + 1, name.len() as int) }
+}
+impl Ev {
+    pub open spec fn local(self) -> Seq<u8> { local_of(self.name) }
+    pub open spec fn is_tag(self) -> bool { self.kind is Start || self.kind is End }
+}
 
+// TRUSTED: A-xml -- quick_xml::name::QName (a tuple struct over the qualified-name bytes; `==` compares the bytes)
+pub struct QName<'a>(pub &'a [u8]);
+impl<'a> PartialEq for QName<'a> {
+    #[verifier::external_body]
+    fn eq(&self, o: &QName<'a>) -> (r: bool) ensures r == (self.0@ =~= o.0@) { unimplemented!() }
+}
+// TRUSTED: A-xml -- quick_xml::name::LocalName
 #[verifier::external_body]
-pub struct LocalName<'a> { p: &'a [u8] }
+pub struct LocalName<'a> { _p: core::marker::PhantomData<&'a ()> }
 impl<'a> LocalName<'a> {
     pub uninterp spec fn bytes(&self) -> Seq<u8>;
+    // TRUSTED: A-xml
     #[verifier::external_body]
     pub fn as_ref(&self) -> (r: &[u8]) ensures r@ == self.bytes() { unimplemented!() }
 }
+// TRUSTED: A-xml -- quick_xml::events::{BytesStart, BytesEnd, BytesText, BytesCData}: views onto one ghost event
+#[verifier::external_body]
+pub struct BytesStart<'a> { _p: core::marker::PhantomData<&'a ()> }
+#[verifier::external_body]
+pub struct BytesEnd<'a> { _p: core::marker::PhantomData<&'a ()> }
+#[verifier::external_body]
+pub struct BytesText<'a> { _p: core::marker::PhantomData<&'a ()> }
+#[verifier::external_body]
+pub struct BytesCData<'a> { _p: core::marker::PhantomData<&'a ()> }
 
-#[verifier::external_body]
-pub struct BytesStart<'a> { p: &'a [u8] }
-#[verifier::external_body]
-pub struct BytesEnd<'a> { p: &'a [u8] }
-#[verifier::external_body]
-pub struct BytesText<'a> { p: &'a [u8] }
-
+// TRUSTED: A-xml -- quick_xml::events::Event; `Other` stands for Comment / PI / Decl / DocType (never named by the verified code;
+// `Empty` cannot occur with expand_empty_elements = true)
 pub enum Event<'a> {
     Start(BytesStart<'a>),
     End(BytesEnd<'a>),
     Text(BytesText<'a>),
-    CData(BytesText<'a>),
+    CData(BytesCData<'a>),
     Other,
     Eof,
 }
 
 impl<'a> BytesStart<'a> {
     pub uninterp spec fn ev(&self) -> Ev;
+    // TRUSTED: A-xml
     #[verifier::external_body]
     pub fn name(&self) -> (r: QName<'_>) ensures r.0@ == self.ev().name { unimplemented!() }
+    // TRUSTED: A-xml
     #[verifier::external_body]
-    pub fn local_name(&self) -> (r: LocalName<'_>) ensures r.bytes() == self.ev().name { unimplemented!() }
+    pub fn local_name(&self) -> (r: LocalName<'_>) ensures r.bytes() == self.ev().local() { unimplemented!() }
 }
 impl<'a> BytesEnd<'a> {
     pub uninterp spec fn ev(&self) -> Ev;
+    // TRUSTED: A-xml
     #[verifier::external_body]
     pub fn name(&self) -> (r: QName<'_>) ensures r.0@ == self.ev().name { unimplemented!() }
+    // TRUSTED: A-xml
     #[verifier::external_body]
-    pub fn local_name(&self) -> (r: LocalName<'_>) ensures r.bytes() == self.ev().name { unimplemented!() }
+    pub fn local_name(&self) -> (r: LocalName<'_>) ensures r.bytes() == self.ev().local() { unimplemented!() }
 }
+// TRUSTED: A-std -- `Cow::deref` yields the borrowed or owned content; `cow_ref` names it
+pub uninterp spec fn cow_ref<'a, 'b, B: ?Sized + ToOwned>(c: &'b Cow<'a, B>) -> &'b B;
+pub assume_specification<'a, 'b, B: ?Sized + ToOwned>[ <Cow<'a, B> as Deref>::deref ](c: &'b Cow<'a, B>) -> (r: &'b B)
+    ensures r == cow_ref(c);
 impl<'a> BytesText<'a> {
     pub uninterp spec fn ev(&self) -> Ev;
+    // TRUSTED: A-xml -- `unescape` returns the text with the predefined entities and character references resolved, or Err
     #[verifier::external_body]
-    pub fn unescape(&self) -> (r: Result<Cow<'a, str>, quick_xml::Error>) { unimplemented!() }
+    pub fn unescape(&self) -> (r: Result<Cow<'a, str>, quick_xml::Error>)
+        ensures
+            self.ev().text_ok ==> r is Ok && cow_ref(&r->Ok_0)@ == self.ev().text,
+            !self.ev().text_ok ==> r is Err,
+    { unimplemented!() }
+}
+impl<'a> BytesCData<'a> {
+    pub uninterp spec fn ev(&self) -> Ev;
 }
 
+/// the result `read_event_into` delivers for the ghost event e
+pub open spec fn ev_result<'b>(r: Result<Event<'b>, quick_xml::Error>, e: Ev) -> bool {
+    match e.kind {
+        EvKind::Start => r matches Ok(Event::Start(b)) && b.ev() == e,
+        EvKind::End => r matches Ok(Event::End(b)) && b.ev() == e,
+        EvKind::Text => r matches Ok(Event::Text(b)) && b.ev() == e,
+        EvKind::CData => r matches Ok(Event::CData(b)) && b.ev() == e,
+        EvKind::Other => r matches Ok(Event::Other),
+        EvKind::Error => r is Err,
+    }
+}
+/// where `read_to_end_into(name)` started at i with `depth` open same-named elements stops: at the End tag named `name` that
+/// closes depth 0, at an Error event, or at ev.len() (end of input).  Only tags with exactly this qualified name are counted.
+pub open spec fn rte_stop(ev: Seq<Ev>, i: int, name: Seq<u8>, depth: nat) -> int
+    decreases ev.len() - i
+{
+    if i < 0 || i >= ev.len() { ev.len() as int }
+    else if ev[i].kind is Error { i }
+    else if ev[i].kind is Start && ev[i].name == name { rte_stop(ev, i + 1, name, depth + 1) }
+    else if ev[i].kind is End && ev[i].name == name { if depth == 0 { i } else { rte_stop(ev, i + 1, name, (depth - 1) as nat) } }
+    else { rte_stop(ev, i + 1, name, depth) }
+}
+
+// TRUSTED: A-xml -- quick_xml::Reader<BufReader<ZipFile>> (type alias XlReader of src/xlsx/mod.rs)
 #[verifier::external_body]
-pub struct XlReader<'a> { p: &'a [u8] }
+pub struct XlReader<'a> { _p: core::marker::PhantomData<&'a ()> }
 impl<'a> XlReader<'a> {
     pub uninterp spec fn events(&self) -> Seq<Ev>;
     pub uninterp spec fn pos(&self) -> nat;
+    pub open spec fn left(&self) -> int { if self.pos() >= self.events().len() { 0 } else { self.events().len() - self.pos() } }
+
+    // TRUSTED: A-xml -- returns events[pos] and advances; at the end of input returns Eof for ever
     #[verifier::external_body]
     pub fn read_event_into<'b>(&mut self, buf: &'b mut Vec<u8>) -> (r: Result<Event<'b>, quick_xml::Error>)
-        ensures final(self).events() == old(self).events(),
+        ensures
+            final(self).events() == old(self).events(),
+            old(self).pos() >= old(self).events().len() ==> (r matches Ok(Event::Eof)) && final(self).pos() == old(self).pos(),
+            old(self).pos() < old(self).events().len() ==>
+                final(self).pos() == old(self).pos() + 1 && ev_result(r, old(self).events()[old(self).pos() as int]),
     { unimplemented!() }
+
+    // TRUSTED: A-xml -- documented behaviour of Reader::read_to_end_into: reads events until the End tag with this qualified name
+    // at nesting depth 0 (nesting counted for tags with the same qualified name only); Err on a reader error or end of input
     #[verifier::external_body]
     pub fn read_to_end_into(&mut self, end: QName<'_>, buf: &mut Vec<u8>) -> (r: Result<(), quick_xml::Error>)
-        ensures final(self).events() == old(self).events(),
+        ensures
+            final(self).events() == old(self).events(),
+            final(self).pos() >= old(self).pos(),
+            ({
+                let ev = old(self).events();
+                let k = rte_stop(ev, old(self).pos() as int, end.0@, 0);
+                if k < ev.len() && ev[k].kind is End { r is Ok && final(self).pos() == k + 1 } else { r is Err }
+            }),
     { unimplemented!() }
+}
+
+// TRUSTED: A-lit -- Verus keeps the contents of byte-string literals uninterpreted (only their length is known); the bytes of the
+// literals the verified code compares names with are stated here (ASCII)
+#[verifier::external_body]
+pub proof fn axiom_bytelits()
+    ensures
+        b"r"@ == n_r(), b"t"@ == n_t(), b"rPh"@ == n_rph(), b"si"@ == n_si(), b"sst"@ == n_sst(),
+{}
+pub open spec fn n_r() -> Seq<u8> { seq![0x72u8] }
+pub open spec fn n_t() -> Seq<u8> { seq![0x74u8] }
+pub open spec fn n_rph() -> Seq<u8> { seq![0x72u8, 0x50u8, 0x68u8] }
+pub open spec fn n_si() -> Seq<u8> { seq![0x73u8, 0x69u8] }
+pub open spec fn n_sst() -> Seq<u8> { seq![0x73u8, 0x73u8, 0x74u8] }
+proof fn lemma_names_distinct()
+    ensures n_r() != n_t(), n_r() != n_rph(), n_t() != n_rph(), n_si() != n_sst(),
+{
+    assert(n_r()[0] != n_t()[0]);
+    assert(n_r().len() != n_rph().len());
+    assert(n_t().len() != n_rph().len());
+    assert(n_si().len() != n_sst().len());
+}
+
+// =====================================================================================================================
+// C19 -- string items.  ECMA-376 Part 1, 18.4.8 si / 18.3.1.53 is (CT_Rst): sequence of
+//     t?  (18.4.12, the plain text)        r*   (18.4.4 rich-text run, CT_RElt = rPr? t)
+//     rPh* (18.4.6 phonetic run, CT_PhoneticRun = t: a reading hint, NOT part of the string)    phoneticPr? (18.4.3, empty)
+// "If the string is just a simple string ... the si should contain a single text element ... if the string is more complex
+// the string item shall consist of multiple rich text runs which collectively are used to express the string."
+// Text of an item = if it has runs: the texts of the `t` elements outside phonetic runs, concatenated in document order;
+// else the text of its `t` child; none if it has neither.  Text of a `t` element = its character data (Text events unescaped,
+// CDATA sections literally; comments and processing instructions contribute nothing).
+// The definition below walks the event sequence with the element context of the schema (which element's content we are in).
+// =====================================================================================================================
+pub enum RLvl { Si, R, Ph }   // content of: the string item itself / a run `r` / a phonetic run `rPh`
+pub ghost struct RstSt {
+    pub lvl: RLvl,
+    pub in_t: bool,             // inside a `t` element that is a child of `lvl`
+    pub tname: Seq<u8>,         // qualified name of that `t` start tag
+    pub tbuf: Seq<char>,        // its character data so far
+    pub skip: nat,              // > 0: inside an element whose content carries no text (rPr, phoneticPr, extension), at this depth
+    pub rich: bool,             // a run `r` was met
+    pub acc: Seq<char>,         // concatenation of the texts of the counted `t` elements closed so far (rich form)
+    pub plain: Option<Seq<char>>, // text of the first `t` child of the item (plain form)
+}
+pub enum RstStep { Next(RstSt), Done(Option<Seq<char>>), Bad }
+pub ghost struct RstRes { pub ok: bool, pub text: Option<Seq<char>>, pub rich: bool, pub end: int }
+
+pub open spec fn rst_init() -> RstSt {
+    RstSt { lvl: RLvl::Si, in_t: false, tname: Seq::empty(), tbuf: Seq::empty(), skip: 0, rich: false, acc: Seq::empty(), plain: None }
+}
+/// one event of the content of the string item whose start tag had the qualified name `closing`
+pub open spec fn rst_step(e: Ev, s: RstSt, closing: Seq<u8>) -> RstStep {
+    if e.kind is Error { RstStep::Bad }
+    else if s.in_t {
+        // content of a `t` element: character data only
+        match e.kind {
+            EvKind::Text => if !(s.lvl is Ph) && !e.text_ok { RstStep::Bad } else { RstStep::Next(RstSt { tbuf: s.tbuf + e.text, ..s }) },
+            EvKind::CData => RstStep::Next(RstSt { tbuf: s.tbuf + e.text, ..s }),
+            EvKind::Other => RstStep::Next(s),
+            EvKind::Start => RstStep::Bad,
+            EvKind::End =>
+                if !(e.name =~= s.tname) { RstStep::Bad }   // well-formedness: the end tag carries the name of its start tag
+                else {
+                    match s.lvl {
+                        RLvl::Si => RstStep::Next(RstSt { in_t: false,
+                                        plain: if s.plain is None && !s.rich { Some(s.tbuf) } else { s.plain },
+                                        acc: if s.rich { s.acc + s.tbuf } else { s.acc }, ..s }),
+                        RLvl::R => RstStep::Next(RstSt { in_t: false, acc: s.acc + s.tbuf, ..s }),
+                        RLvl::Ph => RstStep::Next(RstSt { in_t: false, ..s }),    // phonetic text contributes nothing
+                    }
+                },
+            EvKind::Error => RstStep::Bad,
+        }
+    } else if s.skip > 0 {
+        // content of rPr / phoneticPr / an extension element: no element of the string-item vocabulary inside
+        if e.is_tag() && (e.local() =~= n_t() || e.local() =~= n_r() || e.local() =~= n_rph() || e.local() =~= local_of(closing)) { RstStep::Bad }
+        else if e.kind is Start { RstStep::Next(RstSt { skip: s.skip + 1, ..s }) }
+        else if e.kind is End { RstStep::Next(RstSt { skip: (s.skip - 1) as nat, ..s }) }
+        else { RstStep::Next(s) }
+    } else if e.kind is Start {
+        if e.local() =~= local_of(closing) { RstStep::Bad }     // a string item does not contain string items
+        else if e.local() =~= n_t() { RstStep::Next(RstSt { in_t: true, tname: e.name, tbuf: Seq::empty(), ..s }) }
+        else if e.local() =~= n_r() {
+            // a run: child of the item only; the form `t` followed by runs is not a form 18.4.8 describes (not covered)
+            if s.lvl is Si && s.plain is None { RstStep::Next(RstSt { lvl: RLvl::R, rich: true, ..s }) } else { RstStep::Bad }
+        }
+        else if e.local() =~= n_rph() { if s.lvl is Si { RstStep::Next(RstSt { lvl: RLvl::Ph, ..s }) } else { RstStep::Bad } }
+        else { RstStep::Next(RstSt { skip: 1, ..s }) }
+    } else if e.kind is End {
+        match s.lvl {
+            RLvl::Si => if e.name =~= closing { RstStep::Done(if s.rich { Some(s.acc) } else { s.plain }) } else { RstStep::Bad },
+            RLvl::R => if e.local() =~= n_r() && !(e.local() =~= local_of(closing)) { RstStep::Next(RstSt { lvl: RLvl::Si, ..s }) } else { RstStep::Bad },
+            RLvl::Ph => if e.local() =~= n_rph() && !(e.local() =~= local_of(closing)) { RstStep::Next(RstSt { lvl: RLvl::Si, ..s }) } else { RstStep::Bad },
+        }
+    } else {
+        RstStep::Next(s)    // white space, comments between the child elements
+    }
+}
+/// the string item whose content starts at ev[i] (state s): well-formed per the schema?  its text, and the index of its end tag
+pub open spec fn rst_scan(ev: Seq<Ev>, i: int, s: RstSt, closing: Seq<u8>) -> RstRes
+    decreases ev.len() - i
+{
+    if i < 0 || i >= ev.len() { RstRes { ok: false, text: None, rich: false, end: i } }
+    else {
+        match rst_step(ev[i], s, closing) {
+            RstStep::Bad => RstRes { ok: false, text: None, rich: false, end: i },
+            RstStep::Done(t) => RstRes { ok: true, text: t, rich: s.rich, end: i },
+            RstStep::Next(s2) => rst_scan(ev, i + 1, s2, closing),
+        }
+    }
+}
+/// text of the string item (`si` or `is`) whose start tag is ev[i - 1]
+pub open spec fn rst_item(ev: Seq<Ev>, i: int, closing: Seq<u8>) -> RstRes { rst_scan(ev, i, rst_init(), closing) }
+
+pub open spec fn no_cdata(ev: Seq<Ev>, a: int, b: int) -> bool { forall|k: int| a <= k < b && 0 <= k < ev.len() ==> !(#[trigger] ev[k].kind is CData) }
+/// the qualified name carries no namespace prefix
+pub open spec fn unprefixed(name: Seq<u8>) -> bool { local_of(name) == name }
+pub open spec fn ostr(o: Option<String>) -> Option<Seq<char>> { match o { Some(s) => Some(s@), None => None } }
+
+proof fn lemma_rst_end(ev: Seq<Ev>, i: int, s: RstSt, closing: Seq<u8>)
+    requires 0 <= i, rst_scan(ev, i, s, closing).ok,
+    ensures i <= rst_scan(ev, i, s, closing).end < ev.len(),
+        ev[rst_scan(ev, i, s, closing).end].kind is End, ev[rst_scan(ev, i, s, closing).end].name == closing,
+    decreases ev.len() - i,
+{
+    if i < ev.len() {
+        match rst_step(ev[i], s, closing) {
+            RstStep::Next(s2) => { lemma_rst_end(ev, i + 1, s2, closing); }
+            _ => {}
+        }
+    }
+}
+/// after the plain `t` child has been read, `read_to_end_into(closing)` stops exactly at the end tag of the item, and the text stays
+proof fn lemma_rst_plain_rte(ev: Seq<Ev>, i: int, s: RstSt, closing: Seq<u8>)
+    requires 0 <= i, rst_scan(ev, i, s, closing).ok, s.plain is Some, !s.rich,
+        s.in_t ==> local_of(s.tname) != local_of(closing),
+    ensures
+        rte_stop(ev, i, closing, 0) == rst_scan(ev, i, s, closing).end,
+        rst_scan(ev, i, s, closing).text == s.plain,
+        !rst_scan(ev, i, s, closing).rich,
+    decreases ev.len() - i,
+{
+    if i < ev.len() {
+        let e = ev[i];
+        match rst_step(e, s, closing) {
+            RstStep::Next(s2) => {
+                lemma_rst_plain_rte(ev, i + 1, s2, closing);
+                // an inner tag never carries the qualified name `closing`: its local name differs from local_of(closing)
+                if e.is_tag() && e.name == closing {
+                    assert(e.local() == local_of(closing));
+                    if s.in_t { assert(e.kind is End && e.name == s.tname); }
+                    assert(false);
+                }
+            }
+            _ => {}
+        }
+    }
 }
 
 //@@ fn src/xlsx/mod.rs read_string props=C19 ret=r
 //@@ sig
+    ensures
+        //# C19.reader_events_frame
+        final(xml).events() == old(xml).events() && final(xml).pos() >= old(xml).pos(),
+        //# C19.plain_first_t
+        ({ let it = rst_item(old(xml).events(), old(xml).pos() as int, __arg1.0@);
+           it.ok && !it.rich && unprefixed(__arg1.0@) && no_cdata(old(xml).events(), old(xml).pos() as int, it.end) ==>
+               r is Ok && ostr(r->Ok_0) == it.text }),
+        //# C19.rich_runs_concat
+        ({ let it = rst_item(old(xml).events(), old(xml).pos() as int, __arg1.0@);
+           it.ok && it.rich && unprefixed(__arg1.0@) && no_cdata(old(xml).events(), old(xml).pos() as int, it.end) ==>
+               r is Ok && ostr(r->Ok_0) == it.text }),
+        //# C19.reader_left_after_closing_tag
+        ({ let it = rst_item(old(xml).events(), old(xml).pos() as int, __arg1.0@);
+           it.ok && unprefixed(__arg1.0@) && no_cdata(old(xml).events(), old(xml).pos() as int, it.end) ==>
+               final(xml).pos() == it.end + 1 }),
+        //# C01,C19.ns_prefix_string_item
+        ({ let it = rst_item(old(xml).events(), old(xml).pos() as int, __arg1.0@);
+           it.ok && no_cdata(old(xml).events(), old(xml).pos() as int, it.end) ==>
+               r is Ok && ostr(r->Ok_0) == it.text && final(xml).pos() == it.end + 1 }),
+        //# C19.cdata_text
+        ({ let it = rst_item(old(xml).events(), old(xml).pos() as int, __arg1.0@);
+           it.ok && unprefixed(__arg1.0@) ==>
+               r is Ok && ostr(r->Ok_0) == it.text && final(xml).pos() == it.end + 1 }),
+//@@ before /let mut buf = /
+    let ghost ev = xml.events();
+    let ghost p0 = xml.pos() as int;
+    let ghost cl = closing@;
+    let ghost tot = rst_item(ev, p0, cl);
+    let ghost good = tot.ok && unprefixed(cl) && no_cdata(ev, p0, tot.end);
+    let ghost mut st = rst_init();
+    proof { axiom_bytelits(); lemma_names_distinct(); if tot.ok { lemma_rst_end(ev, p0, st, cl); } }
 //@@ loop 0
-        decreases xml.events().len() - xml.pos(),
+        invariant
+            ev == old(xml).events(), p0 == old(xml).pos(), cl == __arg1.0@,
+            xml.events() == ev, xml.pos() >= p0, cl == closing@,
+            tot == rst_item(ev, p0, cl),
+            good == (tot.ok && unprefixed(cl) && no_cdata(ev, p0, tot.end)),
+            b"r"@ == n_r(), b"t"@ == n_t(), b"rPh"@ == n_rph(),
+            n_r() != n_t(), n_r() != n_rph(), n_t() != n_rph(),
+            good ==> rst_scan(ev, xml.pos() as int, st, cl) == tot,
+            good ==> xml.pos() <= tot.end < ev.len() && ev[tot.end].kind is End && ev[tot.end].name == cl,
+            good ==> (is_phonetic_text == (st.lvl is Ph)),
+            good ==> (st.in_t ==> st.lvl is Ph),
+            good ==> (st.lvl is R ==> st.rich),
+            good ==> st.plain is None,
+            good ==> (rich_buffer is Some) == st.rich,
+            good ==> (st.rich ==> rich_buffer->Some_0@ == st.acc),
+        decreases xml.left(),
+//@@ before /match xml\.read_event_into\(&mut buf\)/
+        let ghost pos = xml.pos() as int;
+        let ghost stp = if pos < ev.len() { rst_step(ev[pos], st, cl) } else { RstStep::Bad };
+        let ghost st0 = st;
+        proof {
+            if good {
+                assert(pos < ev.len());
+                assert(!(ev[pos].kind is CData));
+                assert(!(stp is Bad));
+                if stp is Next { st = stp->Next_0; lemma_rst_end(ev, pos + 1, st, cl); }
+            }
+        }
 //@@ loop 1
-        decreases xml.events().len() - xml.pos(),
+                    invariant_except_break
+                        good ==> st == (RstSt { tbuf: value@, ..st1 }),
+                    invariant
+                        ev == old(xml).events(), p0 == old(xml).pos(), cl == __arg1.0@,
+                        xml.events() == ev, xml.pos() >= p0, cl == closing@,
+                        tot == rst_item(ev, p0, cl),
+                        good == (tot.ok && unprefixed(cl) && no_cdata(ev, p0, tot.end)),
+                        good ==> e.ev().name == st1.tname,
+                        good ==> st1.in_t && !(st1.lvl is Ph) && st1.plain is None && st1.skip == 0,
+                        good ==> rst_scan(ev, xml.pos() as int, st, cl) == tot,
+                        good ==> xml.pos() <= tot.end < ev.len() && ev[tot.end].kind is End && ev[tot.end].name == cl,
+                    ensures
+                        good ==> rst_step(ev[xml.pos() - 1], RstSt { tbuf: value@, ..st1 }, cl) == RstStep::Next(st),
+                        good ==> ev[xml.pos() - 1].kind is End && ev[xml.pos() - 1].name == st1.tname,
+                    decreases xml.left(),
+//@@ before /let mut value = String::new\(\);/
+                let ghost st1 = st;
+                proof {
+                    assert(pos < ev.len());
+                    assert(ev[pos].kind is Start);
+                    assert(e.ev() == ev[pos]);
+                    assert(e.ev().local() =~= n_t());
+                    assert(!is_phonetic_text);
+                    if good {
+                        assert(!st0.in_t);
+                        assert(st0.skip == 0);
+                        assert(stp is Next);
+                    }
+                }
+//@@ before /match xml\.read_event_into\(&mut val_buf\)/
+                    let ghost ipos = xml.pos() as int;
+                    let ghost istp = if ipos < ev.len() { rst_step(ev[ipos], st, cl) } else { RstStep::Bad };
+                    proof {
+                        if good {
+                            assert(ipos < ev.len());
+                            assert(!(ev[ipos].kind is CData));
+                            assert(!(istp is Bad));
+                            if istp is Next { st = istp->Next_0; lemma_rst_end(ev, ipos + 1, st, cl); }
+                        }
+                    }
+//@@ before /xml\.read_to_end_into\(/
+                    proof {
+                        if good { lemma_rst_plain_rte(ev, xml.pos() as int, st, cl); }
+                    }
 //@@ end
 
 } // verus!
